@@ -62,6 +62,27 @@ pub fn pool<G: Cv>(env: &Env<G>, seed: u64) -> Vec<Inst<G>> {
             out.push(mk(&format!("forged/0gates/b{}1", sname), &prog, &pr.commitments, &p.to_bytes()));
         }
     }
+    // structurally malformed members: single verification rejects them before any scalar is formed
+    {
+        use ark_ec::AffineRepr;
+        let (prog2, comms2, bytes2) = first.clone().unwrap();
+        let p2 = Parts::<G>::parse(&bytes2).unwrap();
+        let mut a = p2.clone();
+        a.pts[6] = G::zero();
+        out.push(mk("malformed/T_1-identity", &prog2, &comms2, &a.to_bytes()));
+        let mut a = p2.clone();
+        a.pts[0] = G::zero();
+        out.push(mk("malformed/A_I1-identity", &prog2, &comms2, &a.to_bytes()));
+        let mut a = p2.clone();
+        if !a.l.is_empty() {
+            a.l[0] = G::zero();
+        }
+        out.push(mk("malformed/L0-identity", &prog2, &comms2, &a.to_bytes()));
+        // a proof with the round count of a smaller circuit offered to this verifier
+        let small = Program::parse("C M Kg").unwrap();
+        let pr = program::prove::<G>(&small, &env.pc, &env.bp, seed, "c07", Dev::None);
+        out.push(mk("malformed/round-count-of-another-circuit", &prog2, &comms2, &pr.proof.expect("proof")));
+    }
     // correlated pairs on one valid proof
     let (prog, comms, bytes) = first.unwrap();
     let parts = Parts::<G>::parse(&bytes).unwrap();
